@@ -131,6 +131,12 @@ def make_scratch(mounts, atomics_files=(), extra_subs=(), tmp_root=None):
         _sub(p, "pub fn cancel(&self) -> ! {", "pub fn cancel(&self) {", expect=1)
         _sub(p, "unreachable!()", "crate::verif_env::after_cancel_switch()", expect=1)
         applied.append("E7 coroutine/suspender.rs cancel() tail")
+        # E8 signal handler installation (sigaction/sigset FFI) is environment: skipped
+        _sub(os.path.join(src, "coroutine/korosensei.rs"), "    fn setup_trap_handler() {",
+             "    fn setup_trap_handler() {\n        #[cfg(kani)]\n        return;", expect=1)
+        _sub(os.path.join(src, "coroutine/mod.rs"), "    fn setup_sigvtalrm_handler() {",
+             "    fn setup_sigvtalrm_handler() {\n        #[cfg(kani)]\n        return;", expect=1)
+        applied.append("E8 skip setup_trap_handler / setup_sigvtalrm_handler (signal handler installation)")
         # E5 atomics (only for the concurrency harnesses)
         for rel in atomics_files:
             p = os.path.join(src, rel)
